@@ -95,7 +95,7 @@ func (en *Engine) funcKey(fn *ssa.Function) string {
 }
 
 // VerifyFunction checks fn against its contract for one alias pattern.
-func (en *Engine) VerifyFunction(fn *ssa.Function, fc *FuncContract, pc *PkgContracts, ap AliasPattern) (res *FuncResult) {
+func (en *Engine) VerifyFunction(fn *ssa.Function, fc *FuncContract, pc *PkgContracts, ap AliasPattern, caseIdx int) (res *FuncResult) {
 	res = &FuncResult{Func: en.funcKey(fn), Config: en.cfgName}
 	aliasName := ""
 	root := map[string]string{}
@@ -109,6 +109,9 @@ func (en *Engine) VerifyFunction(fn *ssa.Function, fc *FuncContract, pc *PkgCont
 	en.curFunc = res.Func
 	if res.AliasCase != "" {
 		en.curFunc += "{" + res.AliasCase + "}"
+	}
+	if caseIdx >= 0 {
+		en.curFunc += fmt.Sprintf("{case%d}", caseIdx+1)
 	}
 	en.paths = 0
 	start := len(en.obls)
@@ -146,6 +149,9 @@ func (en *Engine) VerifyFunction(fn *ssa.Function, fc *FuncContract, pc *PkgCont
 	sc := &specCtx{en: en, pc: pc, fc: fc, st: st, env: env, oldEnv: env}
 	for _, r := range fc.Requires {
 		st.assume(sc.evalBool(r.Expr))
+	}
+	if caseIdx >= 0 {
+		st.assume(sc.evalBool(fc.Cases[caseIdx].Expr))
 	}
 	entryMem := make(map[*Region]Cell, len(st.mem))
 	for k, v := range st.mem {
@@ -349,6 +355,24 @@ func (en *Engine) loopHead(st *State, f *Frame, prev, b *ssa.BasicBlock) ([]*Sta
 	}
 	en.usedLoops[fmt.Sprintf("%s#%d", en.curFunc, ord)] = true
 	back := b.Dominates(prev)
+	if ls.Peel > 0 {
+		lst := f.loopSt[b.Index]
+		if lst == nil {
+			lst = &loopState{}
+			f.loopSt[b.Index] = lst
+		}
+		if !back {
+			lst.arrivals = 0
+			lst.entered = false
+		}
+		if !lst.entered {
+			if lst.arrivals < ls.Peel {
+				lst.arrivals++
+				return nil, false // execute this iteration concretely
+			}
+			back = false // the invariant takes over from here: treat as loop entry
+		}
+	}
 	// evaluate the phis for this edge so that invariants can refer to loop variables
 	f.block = prev
 	evalPhis := func(s *State, fr *Frame) {
@@ -403,7 +427,7 @@ func (en *Engine) loopHead(st *State, f *Frame, prev, b *ssa.BasicBlock) ([]*Sta
 	for k, v := range st.mem {
 		lmem[k] = v
 	}
-	f.loopSt[b.Index] = &loopState{entered: true, mem: lmem}
+	f.loopSt[b.Index] = &loopState{entered: true, mem: lmem, arrivals: ls.Peel}
 	sc2 := *f.spec
 	sc2.st = st
 	sc2.locals = en.localsResolver(st, f)
